@@ -179,6 +179,8 @@ func c08Play(w *c08World, steps []c08Step, onlyLast bool) (viol string, key stri
 	var b strings.Builder
 	for _, q := range live {
 		b.WriteString(privateDump(q))
+		// hidden fields of the expression objects (memoised keys and the like) are state too
+		b.WriteString(rt.DeepDump(q.Expr, 6))
 		b.WriteString("|")
 	}
 	return "", b.String()
